@@ -166,6 +166,45 @@ func init() {
 			_, e5 := gocvss20.ParseVector("CVSS:2.0/" + full14)
 			return fmt.Sprint(e1, "|", e2, "|", e3, "|", e4, "|", e5)
 		}},
+		Body{"parse twice, edit the first result, read the second (all versions)", func(keep *[]Retained) string {
+			out := ""
+			{
+				a, _ := gocvss20.ParseVector(temp9)
+				b, _ := gocvss20.ParseVector(temp9)
+				a.Set("AV", "N")
+				a.Set("RC", "UC")
+				c, _ := gocvss20.ParseVector(temp9)
+				out += b.Vector() + " " + c.Vector() + " "
+			}
+			{
+				const v = "CVSS:3.0/AV:L/AC:H/PR:L/UI:R/S:C/C:N/I:H/A:L/RC:U/MS:U"
+				a, _ := gocvss30.ParseVector(v)
+				b, _ := gocvss30.ParseVector(v)
+				a.Set("AV", "P")
+				a.Set("MA", "H")
+				c, _ := gocvss30.ParseVector(v)
+				out += b.Vector() + " " + c.Vector() + " "
+			}
+			{
+				const v = "CVSS:3.1/AV:N/AC:L/PR:N/UI:R/S:C/C:H/I:L/A:N/E:F/MAV:A"
+				a, _ := gocvss31.ParseVector(v)
+				b, _ := gocvss31.ParseVector(v)
+				a.Set("AV", "P")
+				a.Set("MAV", "P")
+				c, _ := gocvss31.ParseVector("CVSS:3.1/MAV:A/E:F/A:N/I:L/C:H/S:C/UI:R/PR:N/AC:L/AV:N")
+				out += b.Vector() + " " + c.Vector() + " "
+			}
+			{
+				const v = "CVSS:4.0/AV:N/AC:L/AT:N/PR:N/UI:N/VC:H/VI:L/VA:N/SC:N/SI:N/SA:N/E:P/MSI:S/U:Amber"
+				a, _ := gocvss40.ParseVector(v)
+				b, _ := gocvss40.ParseVector(v)
+				a.Set("AV", "P")
+				a.Set("U", "Red")
+				c, _ := gocvss40.ParseVector(v)
+				out += b.Vector() + " " + c.Vector()
+			}
+			return out
+		}},
 		Body{"v3.0/v4/v2 unknown-abbreviation errors", func(keep *[]Retained) string {
 			_, e1 := gocvss30.ParseVector("CVSS:3.0/QUX:N")
 			o4 := shared40
